@@ -206,6 +206,75 @@ type blockRun struct {
 	objs    map[common.Address]*blockObj
 	keys    map[common.Address]map[string]bool // history-wide: keys ever used per address
 	recreat bool
+
+	// open journal scopes: the model keeps a full copy per Snapshot and simply does not apply reverted runs
+	scopes   []scopeCopy
+	touchLog []string // what the un-reverted part of the block has written so far ("a:"+addr, "d:"+addr+key, "b:"+addr)
+	parent   *mState
+
+	nReverted, nReleased, maxDepth             int
+	revertedOverEarlierWrite, revertedCommitted bool
+}
+
+type scopeCopy struct {
+	id      int
+	w       *mState
+	objs    map[common.Address]*blockObj
+	recreat bool
+	touched int
+}
+
+func (b *blockRun) touch(kind string, a common.Address, k []byte) {
+	b.touchLog = append(b.touchLog, "a:"+string(a[:]))
+	if kind != "a" {
+		b.touchLog = append(b.touchLog, kind+":"+string(a[:])+string(k))
+	}
+}
+
+func (b *blockRun) snapshot() {
+	var id int
+	b.guard("Snapshot", func() { id = b.st.Snapshot() })
+	objs := make(map[common.Address]*blockObj, len(b.objs))
+	for a, o := range b.objs {
+		c := *o
+		objs[a] = &c
+	}
+	b.scopes = append(b.scopes, scopeCopy{id: id, w: b.w.clone(), objs: objs, recreat: b.recreat, touched: len(b.touchLog)})
+	if len(b.scopes) > b.maxDepth {
+		b.maxDepth = len(b.scopes)
+	}
+}
+
+func (b *blockRun) endScope(revert bool) {
+	if len(b.scopes) == 0 {
+		return
+	}
+	sc := b.scopes[len(b.scopes)-1]
+	b.scopes = b.scopes[:len(b.scopes)-1]
+	if !revert {
+		b.nReleased++
+		return
+	}
+	b.guard("RevertToSnapshot", func() { b.st.RevertToSnapshot(sc.id) })
+	b.nReverted++
+	earlier := map[string]bool{}
+	for _, x := range b.touchLog[:sc.touched] {
+		earlier[x] = true
+	}
+	for _, x := range b.touchLog[sc.touched:] {
+		if earlier[x] {
+			b.revertedOverEarlierWrite = true
+		}
+		if x[0] == 'a' {
+			var a common.Address
+			copy(a[:], x[2:])
+			if b.parent.Accts[a] != nil {
+				b.revertedCommitted = true
+			}
+		}
+	}
+	b.touchLog = b.touchLog[:sc.touched]
+	b.w, b.objs, b.recreat = sc.w, sc.objs, sc.recreat
 }
 
 func (b *blockRun) getOrNew(a common.Address) *blockObj {
@@ -268,6 +337,7 @@ func (b *blockRun) readBackBalance(a common.Address) {
 
 func (b *blockRun) setNonce(a common.Address, n uint64) {
 	b.guard("SetNonce", func() { b.st.SetNonce(a, n) })
+	b.touch("a", a, nil)
 	o := b.getOrNew(a)
 	b.w.Accts[a].Nonce = n
 	o.dirty = true
@@ -275,6 +345,7 @@ func (b *blockRun) setNonce(a common.Address, n uint64) {
 
 func (b *blockRun) incNonce(a common.Address) {
 	b.guard("IncreaseNonce", func() { b.st.IncreaseNonce(a) })
+	b.touch("a", a, nil)
 	o := b.getOrNew(a)
 	b.w.Accts[a].Nonce++
 	o.dirty = true
@@ -287,6 +358,7 @@ func (b *blockRun) setData(a common.Address, k, v []byte, viaRemove bool) {
 		b.guard("SetData", func() { b.st.SetData(a, k, v) })
 	}
 	b.noteKey(a, k)
+	b.touch("d", a, k)
 	o := b.getOrNew(a)
 	acc := b.w.Accts[a]
 	pre := acc.Stor[string(k)]
@@ -306,6 +378,7 @@ func (b *blockRun) setData(a common.Address, k, v []byte, viaRemove bool) {
 
 func (b *blockRun) setCode(a common.Address, code []byte) {
 	b.guard("SetCode", func() { b.st.SetCode(a, code) })
+	b.touch("a", a, nil)
 	o := b.getOrNew(a)
 	acc := b.w.Accts[a]
 	acc.Code, acc.CodeSet = cp(code), true
@@ -314,6 +387,7 @@ func (b *blockRun) setCode(a common.Address, code []byte) {
 
 func (b *blockRun) create(a common.Address) {
 	b.guard("CreateAccount", func() { b.st.CreateAccount(a) })
+	b.touch("a", a, nil)
 	b.getOrNew(a)
 }
 
@@ -328,6 +402,7 @@ func (b *blockRun) suicide(a common.Address) {
 		return
 	}
 	o.dirty, o.suicided = true, true
+	b.touch("b", a, nil)
 	b.readBackBalance(a)
 }
 
@@ -390,9 +465,14 @@ const (
 	opAddBalance
 	opSubBalance
 	nOpKinds
+	// journal scope markers (core executors wrap every transaction / inner call in Snapshot and
+	// RevertToSnapshot on failure); not drawn by drawOp
+	opSnapshot
+	opRevert  // RevertToSnapshot(id of the innermost open scope)
+	opRelease // the scope ended successfully: nothing is called, the id is simply dropped
 )
 
-var opNames = []string{"SetData", "RemoveData", "SetNonce", "IncNonce", "SetCode", "Suicide", "Create", "SetBalance", "AddBalance", "SubBalance"}
+var opNames = []string{"SetData", "RemoveData", "SetNonce", "IncNonce", "SetCode", "Suicide", "Create", "SetBalance", "AddBalance", "SubBalance", "", "Snapshot", "Revert", "Release"}
 
 type opSpec struct {
 	Kind int
@@ -416,6 +496,9 @@ type blockSpec struct {
 }
 
 func (o opSpec) render() string {
+	if o.Kind >= opSnapshot {
+		return opNames[o.Kind]
+	}
 	s := fmt.Sprintf("%s(%d", opNames[o.Kind], o.A)
 	switch o.Kind {
 	case opSetData:
@@ -526,6 +609,60 @@ func drawOp(t *rapid.T) opSpec {
 	return o
 }
 
+// drawOpNear: another mutation of something an earlier operation of the same block already touched
+// (same address; same storage key if it had one).
+func drawOpNear(t *rapid.T, prev opSpec) opSpec {
+	if prev.Key != nil && rapid.IntRange(0, 3).Draw(t, "nearSameKey") > 0 {
+		if rapid.IntRange(0, 4).Draw(t, "nearRemove") == 0 {
+			return opSpec{Kind: opRemoveData, A: prev.A, Key: prev.Key}
+		}
+		return opSpec{Kind: opSetData, A: prev.A, Key: prev.Key, Val: drawVal(t)}
+	}
+	o := drawOp(t)
+	o.A = prev.A
+	return o
+}
+
+// drawScopedOps: n mutations with journal scopes around generated runs of them, nested up to depth 3.
+// A scope ends with RevertToSnapshot (3 of 4) or successfully; scopes still open at the end of the
+// block stay open (a successful transaction never closes its snapshot).
+func drawScopedOps(t *rapid.T, n int) []opSpec {
+	var out, plain []opSpec
+	depth := 0
+	for i := 0; i < n; i++ {
+		switch r := rapid.IntRange(0, 5).Draw(t, "scopeStep"); {
+		case r == 0 && depth < 3:
+			out = append(out, opSpec{Kind: opSnapshot})
+			depth++
+		case r == 1 && depth > 0:
+			k := opRevert
+			if rapid.IntRange(0, 3).Draw(t, "scopeSucceeds") == 0 {
+				k = opRelease
+			}
+			out = append(out, opSpec{Kind: k})
+			depth--
+		}
+		var o opSpec
+		if len(plain) > 0 && rapid.IntRange(0, 2).Draw(t, "near") > 0 {
+			o = drawOpNear(t, plain[rapid.IntRange(0, len(plain)-1).Draw(t, "nearIdx")])
+		} else {
+			o = drawOp(t)
+		}
+		out, plain = append(out, o), append(plain, o)
+	}
+	for ; depth > 0; depth-- {
+		switch rapid.IntRange(0, 3).Draw(t, "scopeTail") {
+		case 0:
+			return out // left open
+		case 1:
+			out = append(out, opSpec{Kind: opRelease})
+		default:
+			out = append(out, opSpec{Kind: opRevert})
+		}
+	}
+	return out
+}
+
 // bigOps: a block that carries >= 150 KB (big=1) or >= 500 KB (big=2) of new code and trie nodes:
 // distinct ~3 KB code for every pool address and many storage slots.
 func bigOps(seed uint64, big int, slots, valLen int) []opSpec {
@@ -594,8 +731,13 @@ func drawHistory(t *rapid.T, forceBig int) history {
 		if b == bigAt {
 			nOps = rapid.IntRange(0, 6).Draw(t, "nOpsBig")
 		}
-		for i := 0; i < nOps; i++ {
-			bs.Ops = append(bs.Ops, drawOp(t))
+		scoped := rapid.IntRange(0, 9).Draw(t, "scopedBlock") < 4
+		if scoped {
+			bs.Ops = drawScopedOps(t, nOps+2)
+		} else {
+			for i := 0; i < nOps; i++ {
+				bs.Ops = append(bs.Ops, drawOp(t))
+			}
 		}
 		if b == bigAt {
 			bs.Big = 1
@@ -604,6 +746,24 @@ func drawHistory(t *rapid.T, forceBig int) history {
 			}
 			big := bigOps(rapid.Uint64().Draw(t, "bigSeed"), bs.Big, rapid.IntRange(12, 24).Draw(t, "bigSlots"), rapid.IntRange(60, 100).Draw(t, "bigValLen"))
 			cut := rapid.IntRange(0, len(bs.Ops)).Draw(t, "bigCut")
+			if scoped { // keep the big run outside the journal scopes: before them, or after them all ended
+				cut = 0
+				if rapid.Bool().Draw(t, "bigLast") {
+					open := 0
+					for _, o := range bs.Ops {
+						switch o.Kind {
+						case opSnapshot:
+							open++
+						case opRevert, opRelease:
+							open--
+						}
+					}
+					for ; open > 0; open-- {
+						bs.Ops = append(bs.Ops, opSpec{Kind: opRelease})
+					}
+					cut = len(bs.Ops)
+				}
+			}
 			ops := append(append(append([]opSpec{}, bs.Ops[:cut]...), big...), bs.Ops[cut:]...)
 			bs.Ops = ops
 		}
@@ -668,6 +828,8 @@ type caseRun struct {
 	youngerFirst, olderAfterYounger, retriedLater               bool
 	lastDropped, laterFlushes, maxPending, maxUnfailedPending   int
 	neverFlushed                                                int
+	scopedBlocks, reverted, released, maxDepth                  int
+	revertedOverEarlierWrite, revertedCommitted, revertArtefact bool
 	nodesWalked                                                 int
 }
 
@@ -715,11 +877,22 @@ func (c *caseRun) runBlock(bi int, bs blockSpec) {
 	if bs.Replay && c.lastDropped == bi-1 && bi > 0 {
 		c.replayed = true
 	}
-	b := &blockRun{t: t, st: st, w: parentModel.clone(), objs: map[common.Address]*blockObj{}, keys: c.keys}
+	b := &blockRun{t: t, st: st, w: parentModel.clone(), objs: map[common.Address]*blockObj{}, keys: c.keys, parent: parentModel}
 	if b.w.Accts[addrB] == nil {
 		b.genesisOps()
 	}
 	for _, o := range bs.Ops {
+		switch o.Kind {
+		case opSnapshot:
+			b.snapshot()
+			continue
+		case opRevert:
+			b.endScope(true)
+			continue
+		case opRelease:
+			b.endScope(false)
+			continue
+		}
 		a := pool[o.A]
 		switch o.Kind {
 		case opSetData:
@@ -746,19 +919,23 @@ func (c *caseRun) runBlock(bi int, bs blockSpec) {
 			b.create(a)
 		case opSetBalance:
 			b.guard("SetBalance", func() { st.SetBalance(a, o.Amt) })
+			b.touchLog = append(b.touchLog, "b:"+string(a[:]))
 			b.getOrNew(addrT)
 			b.readBackBalance(a)
 		case opAddBalance:
 			b.guard("AddBalance", func() { st.AddBalance(a, o.Amt) })
+			b.touchLog = append(b.touchLog, "b:"+string(a[:]))
 			b.getOrNew(addrT)
 			b.readBackBalance(a)
 		case opSubBalance:
 			b.guard("SubBalance", func() { st.SubBalance(a, o.Amt) })
+			b.touchLog = append(b.touchLog, "b:"+string(a[:]))
 			b.getOrNew(addrT)
 			b.readBackBalance(a)
 		}
 	}
-	if bs.EndIR {
+	scoped := b.nReverted+b.nReleased+len(b.scopes) > 0
+	if bs.EndIR || scoped { // the executor always ends a block with IntermediateRoot(true)
 		b.guard("IntermediateRoot(true)", func() { st.IntermediateRoot(true) })
 	}
 	b.finalize()
@@ -766,6 +943,30 @@ func (c *caseRun) runBlock(bi int, bs blockSpec) {
 		c.recreated = true
 	}
 	model := b.w // the model captured before the commit
+	if scoped {
+		// What a revert leaves behind in the journaled object (dirty marks, nil cache entries: C04's
+		// subject) can decide whether Finalise keeps an account. C03 only says that what was readable
+		// right before the commit is readable from the committed root, so for a block with journal
+		// scopes the expectation is what the warm AccountDB answers now - after IntermediateRoot(true),
+		// where reads can no longer influence what Commit(true) does.
+		warm := c.warmSweep(b, model)
+		if d := diffStates(model, warm); d != "" {
+			stats.Class("revert:warm_state_before_commit_differs_from_model_without_reverted_runs(C04_territory):" + strings.Fields(d)[0])
+			if os.Getenv("C03_DEBUG") != "" {
+				fmt.Printf("C03_DEBUG warm!=model: %s | %s\n", d, bs.render(0))
+			}
+			c.revertArtefact = true
+		}
+		model = warm
+		c.scopedBlocks++
+		c.reverted += b.nReverted
+		c.released += b.nReleased
+		if b.maxDepth > c.maxDepth {
+			c.maxDepth = b.maxDepth
+		}
+		c.revertedOverEarlierWrite = c.revertedOverEarlierWrite || b.revertedOverEarlierWrite
+		c.revertedCommitted = c.revertedCommitted || b.revertedCommitted
+	}
 
 	// ---- state commit (AccountDB.Commit): nodes enter the shared trie node cache, nothing reaches disk
 	var root common.Hash
@@ -808,6 +1009,80 @@ func (c *caseRun) runBlock(bi int, bs blockSpec) {
 	for _, fs := range bs.After {
 		c.flushPick(fs)
 	}
+}
+
+// warmSweep reads the whole universe from the block's own AccountDB (Exist, GetNonce, GetCodeHash,
+// GetCode, GetData over every key the history ever used for the address, GetBalance).
+func (c *caseRun) warmSweep(b *blockRun, fwd *mState) *mState {
+	w := newState()
+	for a := range fwd.Deleted {
+		w.Deleted[a] = true
+	}
+	emptyKeccak := keccak(nil)
+	b.guard("reading the warm AccountDB before the commit", func() {
+		for _, a := range universe() {
+			if !b.st.Exist(a) {
+				continue
+			}
+			acc := &mAcct{Nonce: b.st.GetNonce(a), Stor: map[string][]byte{}}
+			h := b.st.GetCodeHash(a)
+			acc.CodeSet = h != common.Hash(emptyCodeHash)
+			if acc.CodeSet && h != emptyKeccak { // GetCode on an account whose code was set empty memoizes an error
+				acc.Code = cp(b.st.GetCode(a))
+			}
+			keys := make([]string, 0, len(c.keys[a]))
+			for k := range c.keys[a] {
+				keys = append(keys, k)
+			}
+			sort.Strings(keys)
+			for _, k := range keys {
+				if v := b.st.GetData(a, []byte(k)); len(v) > 0 {
+					acc.Stor[k] = cp(v)
+				}
+			}
+			w.Accts[a] = acc
+		}
+		for _, a := range pool {
+			if v := b.st.GetBalance(a); v != nil && v.Sign() != 0 {
+				w.Bal[a] = new(big.Int).Set(v)
+			}
+		}
+	})
+	return w
+}
+
+// diffStates names the first difference between two model states ("" if none).
+func diffStates(x, y *mState) string {
+	for _, a := range universe() {
+		p, q := x.Accts[a], y.Accts[a]
+		if (p == nil) != (q == nil) {
+			return fmt.Sprintf("existence of %x", a)
+		}
+		if p == nil {
+			continue
+		}
+		if p.Nonce != q.Nonce || p.CodeSet != q.CodeSet || !bytes.Equal(p.Code, q.Code) || len(p.Stor) != len(q.Stor) {
+			return fmt.Sprintf("account %x", a)
+		}
+		for k, v := range p.Stor {
+			if !bytes.Equal(v, q.Stor[k]) {
+				return fmt.Sprintf("slot %x of %x", k, a)
+			}
+		}
+	}
+	for _, a := range pool {
+		p, q := x.Bal[a], y.Bal[a]
+		if p == nil {
+			p = big.NewInt(0)
+		}
+		if q == nil {
+			q = big.NewInt(0)
+		}
+		if p.Cmp(q) != 0 {
+			return fmt.Sprintf("balance of %x", a)
+		}
+	}
+	return ""
 }
 
 // pendingRoot: a root whose state commit succeeded and whose flush has not yet reported success.
@@ -1297,6 +1572,14 @@ func (c *caseRun) record(h history) {
 	flag(c.sameRoot, "root_equal_to_an_earlier_root")
 	flag(c.forked, "fork_parent_not_latest")
 	flag(c.refused, "has_commit_refused_on_healthy_disk")
+	flag(c.scopedBlocks > 0, "revert:has_block_with_journal_scopes")
+	flag(c.reverted > 0, "revert:has_reverted_scope")
+	flag(c.released > 0, "revert:has_scope_that_ended_without_revert")
+	flag(c.maxDepth == 2, "revert:nesting_depth_2")
+	flag(c.maxDepth >= 3, "revert:nesting_depth_3")
+	flag(c.revertedOverEarlierWrite, "revert:reverted_run_rewrote_what_the_same_block_had_written_before")
+	flag(c.revertedCommitted, "revert:reverted_run_touched_account_committed_in_an_earlier_block")
+	flag(c.revertArtefact, "revert:has_block_whose_warm_state_differs_from_model(C04_territory)")
 	flag(c.deferred, "sched:has_deferred_flush")
 	flag(c.maxPending >= 2, "sched:two_or_more_roots_pending_at_once")
 	flag(c.maxPending >= 3, "sched:three_or_more_roots_pending_at_once")
@@ -1308,7 +1591,7 @@ func (c *caseRun) record(h history) {
 	flag(c.maxUnfailedPending > 2, "sched:beyond_two_concurrent_callers")
 	flag(c.replayed, "dropped_block_executed_again_from_scratch")
 	nt := ""
-	if c.insidePrefixes > 0 || c.recreated || c.olderAfterYounger {
+	if c.insidePrefixes > 0 || c.recreated || c.olderAfterYounger || c.revertedOverEarlierWrite {
 		nt = h.fingerprint()
 	}
 	stats.Case(nt, classes...)
@@ -1317,6 +1600,7 @@ func (c *caseRun) record(h history) {
 	stats.Count("crash_prefixes_checked", int64(c.prefixes))
 	stats.Count("crash_prefixes_strictly_inside_multi_batch_commit", int64(c.insidePrefixes))
 	stats.Count("nodes_walked_raw", int64(c.nodesWalked))
+	stats.Count("reverted_scopes", int64(c.reverted))
 	stats.Count("flushes_of_a_root_that_waited_behind_other_state_commits", int64(c.laterFlushes))
 	var blocks []string
 	for _, b := range h.Blocks {
